@@ -43,6 +43,8 @@ def run(pid, tier, seed, procs=None):
         n_op = N
         if kind == 'key' and N > cfg['N_key']:
             n_op = cfg['N_key']
+        if tier == 'thorough' and op == 'into_ordered_vec':
+            n_op = 5        # measured: the export step at N=6 with 2 expired entries exceeds the exploration budget (8.5 k paths in 43 min, not done)
         if tier == 'quick' and (pid not in HEAVY or pid == 'C02') and kind in ('map', 'set') and op in ('delete', 'delete_by_index'):
             n_op = 6        # removal cases with a non-trivial subtree on both sides need 5 entries
         if tier == 'quick' and pid in ('C02', 'C11') and kind == 'key' and op in ('get_value', 'first_less', 'first_less_or_equal', 'first_less_or_equal_by'):
